@@ -18,5 +18,5 @@ func init() {
 	pow1.SimAuto, pow2.SimAuto = kernel.AutoYield, kernel.AutoYield
 	pow1.SimSpawn, pow2.SimSpawn = kernel.Spawn, kernel.Spawn
 	pow1.SimBind, pow2.SimBind = kernel.Bind, kernel.Bind
-	pow1.SimLock, pow2.SimLock = kernel.LockDepth, kernel.LockDepth
+	pow1.SimLockAcquire, pow2.SimLockAcquire = kernel.LockAcquire, kernel.LockAcquire
 }
